@@ -18,6 +18,7 @@ type Options struct {
 	ReadWrite   bool // add readOnly / writeOnly on properties
 	NoNot       bool
 	StringyEnum bool // enum values only strings (C19 markers)
+	OddNames    bool // property names that need escaping in a JSON pointer ("a/b", "t~x")
 	// AvoidVacuous rewrites the three shapes behind the known C01 finding (not over a vacuous
 	// schema, oneOf with >= 2 vacuous members, vacuous applicator parents) when set; the number
 	// of rewrites is reported by the caller through Excluded.
@@ -175,7 +176,11 @@ func addKeyword(t *rapid.T, o Options, s map[string]any, dom string, depth int) 
 			props = map[string]any{}
 		}
 		for i := 0; i < n; i++ {
-			name := rapid.SampledFrom(PropNames).Draw(t, "pname")
+			names := PropNames
+			if o.OddNames {
+				names = append(append([]string{}, PropNames...), "a/b", "t~x")
+			}
+			name := rapid.SampledFrom(names).Draw(t, "pname")
 			ps := sub(t, o, depth)
 			if o.ReadWrite {
 				switch rapid.IntRange(0, 5).Draw(t, "rw") {
@@ -193,7 +198,11 @@ func addKeyword(t *rapid.T, o Options, s map[string]any, dom string, depth int) 
 		seen := map[string]bool{}
 		var l []any
 		for i := 0; i < n; i++ {
-			name := rapid.SampledFrom([]string{"a", "b", "c", "d"}).Draw(t, "rname")
+			rnames := []string{"a", "b", "c", "d"}
+			if o.OddNames {
+				rnames = append(rnames, "a/b", "t~x")
+			}
+			name := rapid.SampledFrom(rnames).Draw(t, "rname")
 			if !seen[name] {
 				seen[name] = true
 				l = append(l, name)
